@@ -244,7 +244,7 @@ func main() {
 			"package "+name+"\n\nimport verifyield \""+mod+"/internal/verifyield\"\n\nfunc verifSyncYield() { verifyield.Yield() }\n\n"+
 				"func verifSyncLock(lock func()) { verifyield.Yield(); lock(); verifyield.Depth(1) }\n\n"+
 				"func verifSyncUnlock(unlock func()) { unlock(); verifyield.Depth(-1) }\n\n"+
-				"func verifSyncDo[T any](do func(T), f T) { verifyield.Yield(); verifyield.Depth(1); defer verifyield.Depth(-1); do(f) }\n")
+				"func verifSyncDo(do func(func()), f func()) { verifyield.Yield(); verifyield.Depth(1); defer verifyield.Depth(-1); do(f) }\n")
 	}
 	write(filepath.Join(*repo, "internal", "verifyield", "yield.go"),
 		"// Package verifyield exists only in the simulator's build overlay.\npackage verifyield\n\n// Hook is called before every statement of the library that uses sync or sync/atomic.\nvar Hook func()\n\n// DepthHook is told when the library takes (+1) or releases (-1) a lock.\nvar DepthHook func(int)\n\nfunc Yield() {\n\tif h := Hook; h != nil {\n\t\th()\n\t}\n}\n\nfunc Depth(d int) {\n\tif h := DepthHook; h != nil {\n\t\th(d)\n\t}\n}\n")
